@@ -216,7 +216,10 @@ func runC18(c *Check) {
 		c.Unk("C18-R1", "flags", "", "", fmt.Sprintf("anchor lost: %d flag registrations (39 confirmed by hand)", nFlags))
 	}
 	// decode target initialised from DefaultConfig
-	lv := p.Func(configPkg + ".loadFromViper")
+	var lv *ssa.Function
+	for _, f := range funcsCalling(p, configPkg, func(n string) bool { return n == "github.com/mitchellh/mapstructure.NewDecoder" }) {
+		lv = f
+	}
 	if lv == nil {
 		c.Unk("C18-R3", "decode-target", "", "", "anchor lost: loadFromViper")
 	} else {
